@@ -179,4 +179,51 @@ theorem loadIndex_render (cfg : Cfg) (codec : Codec) (crc : Checksum) (h : FileH
   simp only at hra ⊢
   rw [hra]
 
+theorem readBlocksP_err (cfg : Cfg) (d : Decoder) (crc : Checksum) (rest : Bytes) (e : Err)
+    (h : readNextBlock cfg d crc rest = .err e) : readBlocksP cfg d crc rest = ([], some e) := by
+  rw [readBlocksP]
+  split
+  · rename_i h'; rw [h] at h'; cases h'
+  · rename_i h'; rw [h] at h'; cases h'; rfl
+  · rename_i h'; rw [h] at h'; cases h'
+
+/-- One entry whose key-length field is zero on disk poisons the whole file, wherever its block
+    sits: `LoadIndex` reports `ErrEmptyKey` and returns nothing. -/
+theorem loadIndex_poisoned (cfg : Cfg) (codec : Codec) (crc : Checksum) (h : FileHeader) (name : Bytes)
+    (before : List (List Entry)) (bad : List Entry) (tail : Bytes)
+    (hv : h.Valid) (h3 : h.version = 3) (hn : h.nameLength = name.length)
+    (hg : ∀ b ∈ before, GoodBlock b)
+    (hbad : readNextBlock cfg codec.toDecoder crc (encodeBlock codec crc bad ++ tail) = .err .emptyKey) :
+    loadIndex cfg codec.toDecoder crc
+      (encodeFileHeader h ++ (name ++ (renderBlocks codec crc before ++ (encodeBlock codec crc bad ++ tail))))
+      = .error .emptyKey := by
+  have hl := encodeFileHeader_length h
+  have hopen : openReader (encodeFileHeader h ++ (name ++ (renderBlocks codec crc before ++ (encodeBlock codec crc bad ++ tail))))
+      = .ok ⟨h, name⟩ := by
+    unfold openReader
+    rw [if_neg (by simp [hl])]
+    rw [take_append_len _ _ 64 hl, decodeFileHeader_encode h hv]
+    simp only [h3, beq_self_eq_true, Bool.true_and]
+    by_cases hz : 0 < h.nameLength
+    · simp only [hz, decide_true, if_true]
+      rw [if_neg (by simp [hl, hn])]
+      rw [drop_append_len _ _ 64 hl, hn, take_append_len _ _ _ rfl]
+    · have hz' : h.nameLength = 0 := by omega
+      have hne : name = [] := by
+        cases name with
+        | nil => rfl
+        | cons _ _ => simp at hn; omega
+      simp [hz', hne]
+  unfold loadIndex
+  rw [hopen]
+  simp only
+  rw [dataStart_render h name h3 hn]
+  have hdrop : (encodeFileHeader h ++ (name ++ (renderBlocks codec crc before ++ (encodeBlock codec crc bad ++ tail)))).drop (64 + name.length)
+      = renderBlocks codec crc before ++ (encodeBlock codec crc bad ++ tail) := by
+    rw [← List.append_assoc]
+    exact drop_append_len _ _ _ (by simp [hl])
+  rw [hdrop]
+  unfold readBlocks
+  rw [readBlocksP_blocks cfg codec crc before _ hg, readBlocksP_err _ _ _ _ _ hbad]
+
 end Hv.Storage
